@@ -97,7 +97,7 @@ type c06Case struct {
 	idpKey     string // the key pair the IdP is configured with in this case (the IdP object lives through all cases and is reconfigured in place: key roll-over)
 	extras     int    // optional request content that must not change the response (as in C05): 1 Conditions with a foreign AudienceRestriction, 2 Subject, 4 Scoping, 8 Extensions
 	mixed      bool   // endpoints of other bindings (Redirect, Artifact) at their own locations among the POST ones
-	faultFirst bool // another session's response to a client whose connection fails part-way is served first
+	faultFirst bool   // another session's response to a client whose connection fails part-way is served first
 }
 
 func (k c06Case) String() string {
